@@ -37,7 +37,18 @@ ORIG = re.compile(r"file_size|expected_size|actual_file_size|data\.len\(\)")
 def size_decisions(fn):
     """(if-node, table, stored_atom, orig_atom, decompress_in_then, decompress_in_else)"""
     out = []
+    lets_ = {l["pat"]["name"]: l["init"] for l in hirq.find(fn.hir["body"], "let") if l["pat"].get("k") == "bind" and l.get("init") is not None}
+
+    def unlet(c, depth=0):
+        """a condition held in a local (`let is_packed = a < b;`) stands for its initialiser"""
+        c = hirq.strip(c)
+        if depth < 3 and c.get("k") == "path" and c["res"].get("local") in lets_ and hirq.strip(lets_[c["res"]["local"]]).get("k") in ("bin", "un", "mcall"):
+            return unlet(lets_[c["res"]["local"]], depth + 1)
+        if c.get("k") == "bin" and c["op"] in ("&&", "||"):
+            return dict(c, l=unlet(c["l"], depth), r=unlet(c["r"], depth))
+        return c
     for n in hirq.find(fn.hir["body"], "if"):
+        n = dict(n, c=unlet(n["c"]))
         conj = []
 
         def split(c):
